@@ -71,6 +71,24 @@ func main() {
 	res.Note("history-pruner migration variant of the code under test: %s", mnote)
 	res.SetExtra("migration_variant", mnote)
 
+	cl, cnote, err := probeStaleEvent()
+	if err != nil {
+		res.Fatalf("stale-event probe: %v", err)
+		lib.Finish(f, res)
+	}
+	l2Clamps.Store(cl)
+	res.Note("new-head event above the current head: %s", cnote)
+	res.SetExtra("stale_event_variant", cnote)
+
+	rg, rnote, err := probeHeldReader()
+	if err != nil {
+		res.Fatalf("held-reader probe: %v", err)
+		lib.Finish(f, res)
+	}
+	readerGuard.Store(rg)
+	res.Note("legacy historical reader held across a prune: %s", rnote)
+	res.SetExtra("held_reader_variant", rnote)
+
 	var jobs []job
 	if f.Replay != "" {
 		// seed-dependent scenarios are named after the seed of the run that found them
